@@ -145,6 +145,7 @@ def check(prop, tier, seed):
 
     # ---- failed obligations -> violation (with replay) or known finding
     standin_runs = []
+    replay_cache = {}
     for name, obs in sorted(failed.items()):
         kf = [k for k in known['finding'] if k.get('property') == prop and k.get('obligation') == name]
         if kf:
@@ -158,8 +159,10 @@ def check(prop, tier, seed):
         cmds = reg.replay_for(prop, name)
         found = None
         for cmd in cmds:
-            rc, out, dt = run_cmd(cmd, 300)
-            standin_runs.append(dict(cmd=cmd, rc=rc, wall_s=round(dt, 2)))
+            if cmd not in replay_cache:          # the scenario library is run once per check, not per obligation
+                replay_cache[cmd] = run_cmd(cmd, 300)
+                standin_runs.append(dict(cmd=cmd, rc=replay_cache[cmd][0], wall_s=round(replay_cache[cmd][2], 2)))
+            rc, out, dt = replay_cache[cmd]
             if rc not in (0, 124):
                 found = dict(cmd=cmd, rc=rc, output=out)
                 break
